@@ -115,7 +115,7 @@ def prove(cfg, tier, work):
         if rc != 0:
             res['ok'] = False
             res['errors'] += first_error_theorems(out) or [out[-1500:]]
-        rc2, out2 = lake(['build', 'modeldrv'])
+        rc2, out2 = lake(['build', 'drv-' + cfg['driver']])
         if rc2 != 0:
             res['driver_ok'] = False
             res['errors'] += ['modeldrv: ' + e for e in (first_error_theorems(out2) or [out2[-800:]])]
@@ -166,11 +166,19 @@ def prove(cfg, tier, work):
     return res
 
 
+def harness_binary(hc):
+    """C++ harness: hash-keyed build against /repo; script harness: hc['cmd'] (list; $VERIF expanded)"""
+    if 'cmd' in hc:
+        return [a.replace('$VERIF', VERIF) for a in hc['cmd']]
+    return build.build(hc['name'], hc['srcs'], hc.get('flags', ()), hc.get('sanitize', True), hc.get('libs', ()))
+
+
 def run_harness(cfg, binp, tier, seed, work, replay_ops=None, extra_args=()):
     out = os.path.join(work, 'h')
     shutil.rmtree(out, ignore_errors=True)
     os.makedirs(out)
-    cmd = list(cfg['harness'].get('runner', [])) + [binp, '--out', out, '--seed', str(seed), '--tier', tier]
+    cmd = list(cfg['harness'].get('runner', [])) + (binp if isinstance(binp, list) else [binp])
+    cmd += ['--out', out, '--seed', str(seed), '--tier', tier]
     cmd += list(cfg['harness'].get('args', [])) + list(extra_args)
     if replay_ops is not None:
         rp = os.path.join(work, 'replay_ops.txt')
@@ -206,9 +214,9 @@ def correspond(cfg, hres, work):
     ops = os.path.join(hres['out'], 'ops.txt')
     impl = os.path.join(hres['out'], 'impl.txt')
     model = os.path.join(hres['out'], 'model.txt')
-    drv = os.path.join(LEAN, '.lake', 'build', 'bin', 'modeldrv')
+    drv = os.path.join(LEAN, '.lake', 'build', 'bin', 'drv-' + cfg['driver'])
     with open(ops) as fin, open(model, 'w') as fout:
-        p = subprocess.run([drv, cfg['driver']], stdin=fin, stdout=fout, stderr=subprocess.PIPE, text=True)
+        p = subprocess.run([drv], stdin=fin, stdout=fout, stderr=subprocess.PIPE, text=True)
     res = {'ok': True, 'diverging': [], 'n_lines': 0}
     if p.returncode != 0:
         res['ok'] = False
@@ -345,8 +353,7 @@ def run_check(prop, tier, seed, replay=None):
     stats = {}
     harness_err = None
     try:
-        hc = cfg['harness']
-        binp = build.build(hc['name'], hc['srcs'], hc.get('flags', ()), hc.get('sanitize', True), hc.get('libs', ()))
+        binp = harness_binary(cfg['harness'])
     except build.BuildError as e:
         binp = None
         harness_err = 'harness build failed: %s\n%s' % (e, e.log[-1500:])
@@ -447,7 +454,7 @@ def run_check(prop, tier, seed, replay=None):
         'coverage': {
             'obligations': len(obligations),
             'discharged': sum(1 for o in obligations if o['ok']),
-            'checker_cmd': 'cd lean && lake build %s modeldrv && lake env lean <generated #print axioms file>%s' % (
+            'checker_cmd': 'cd lean && lake build %s drv-<Sub> && lake env lean <generated #print axioms file>%s' % (
                 ' '.join(cfg['props_modules']), ' && lake env leanchecker <module>' if tier == 'thorough' else ''),
             'trusted_base': cfg.get('trusted_base', []) + [
                 'Lean 4.33.0 kernel; axioms allowed in property theorems: propext, Classical.choice, Quot.sound',
@@ -490,7 +497,9 @@ def setup():
     t0 = time.time()
     with Lock('lake'):
         translate.run()
-        rc, out = lake(['build', 'DmlcModel', 'modeldrv'])
+        targets = sorted(set(m for c in PROPS.values() for m in c['props_modules']) |
+                         set('drv-' + c['driver'] for c in PROPS.values()))
+        rc, out = lake(['build'] + targets)
     if rc != 0:
         log(out[-3000:])
         log('setup: lake build failed')
@@ -498,12 +507,12 @@ def setup():
     seen = set()
     for prop, cfg in PROPS.items():
         hc = cfg['harness']
-        key = (hc['name'], tuple(hc['srcs']), tuple(hc.get('flags', ())))
+        key = (hc['name'], tuple(hc.get('srcs', ())), tuple(hc.get('flags', ())))
         if key in seen:
             continue
         seen.add(key)
         try:
-            build.build(hc['name'], hc['srcs'], hc.get('flags', ()), hc.get('sanitize', True), hc.get('libs', ()))
+            harness_binary(hc)
         except build.BuildError as e:
             log('setup: %s\n%s' % (e, e.log[-2000:]))
             return 1
